@@ -76,6 +76,9 @@ pub fn build_module(arch: Arch, name: &str, m: &ModSpec) -> Module<Bytes> {
     if let DataSpec::Pe(funcs) = &m.data {
         return crate::pe::build_pe_module(name, m, funcs);
     }
+    if let DataSpec::Macho(spec) = &m.data {
+        return crate::macho::build_macho_module(arch, name, m, spec);
+    }
     let text_svma = m.base_svma.wrapping_add(m.start.wrapping_sub(m.base_avma));
     let text_svma_end = m.base_svma.wrapping_add(m.end.wrapping_sub(m.base_avma));
     let eh_frame_svma = text_svma_end.wrapping_add(0x1000) & !7;
@@ -86,7 +89,7 @@ pub fn build_module(arch: Arch, name: &str, m: &ModSpec) -> Module<Bytes> {
         ..Default::default()
     };
     match &m.data {
-        DataSpec::None | DataSpec::Pe(_) => {}
+        DataSpec::None | DataSpec::Pe(_) | DataSpec::Macho(_) => {}
         DataSpec::Dwarf(pres, fdes) => match pres {
             Pres::Hdr | Pres::Idx => {
                 let enc = if cfi::enc_fits(m.enc, fdes, eh_frame_svma, text_svma) {
